@@ -46,7 +46,7 @@ func (o *oracle) oracleIntegrity() {
 		for i := 0; i < before; i++ {
 			m.Add(AttrType([]uint16{0x0006, 0x0014, 0x7777}[o.rng.Intn(3)]), o.randBytes(o.rng.Intn(20)))
 		}
-		mode := o.rng.Intn(5)
+		mode := o.rng.Intn(6)
 		var macOff int
 		switch mode {
 		case 0, 1, 2: // signed by the library
@@ -146,6 +146,12 @@ func (o *oracle) oracleFingerprint() {
 		}
 		mode := o.rng.Intn(5)
 		switch mode {
+		case 5: // a FINGERPRINT whose value is longer than 4 bytes but starts with the right CRC: not a valid fingerprint
+			extra := 1 + o.rng.Intn(4)
+			m.Add(AttrFingerprint, make([]byte, 4+extra))
+			// the CRC covers everything before the last 8 raw bytes, with the final header length
+			v := refFP(m.Raw)
+			binary.BigEndian.PutUint32(m.Raw[len(m.Raw)-refPad4(4+extra):], v)
 		case 4: // a wrong 4-byte FINGERPRINT first, then a correct one as the last attribute: the FIRST one decides
 			m.Add(AttrFingerprint, o.randBytes(4))
 			_ = Fingerprint.AddTo(m)
